@@ -210,3 +210,14 @@ Example c20_ex_stamp :
   render a = "2024-03-09 23:59:58" /\ render b = "2024-03-09 23:59:58.000001" /\ render c = "2024-03-10 00:00:00" /\
   str_ltb (render a) (render b) = true /\ str_ltb (render b) (render c) = true /\ str_ltb (render c) (render a) = false.
 Proof. vm_compute. repeat split; reflexivity. Qed.
+(* boundary (see theorem c20_events_idempotent, part 3): a summary consolidated BEFORE a node has moved
+   its job event files into its *events.log never shows those events, although they end up in the file *)
+Example c20_ex_consolidation_before_aggregation :
+  let node_ev := ev "bytes_consumed" "1" 1 in
+  let job_ev := ev "unhandled_error" "2" 2 in
+  let s1 := es_init empty_dir [[node_ev]] in
+  let r := aggregate ["jobA"] [node_ev] [("jobA", [job_ev])] in
+  fst r = [node_ev; job_ev] /\
+  list_events "unhandled_error" (es_init (es_dir s1) [fst r]) = Some [] /\
+  list_events "unhandled_error" (es_init empty_dir [fst r]) = Some [job_ev].
+Proof. vm_compute. repeat split; reflexivity. Qed.
